@@ -162,8 +162,31 @@ class _PoisonNumpy:
                 arr.fill(np.iinfo(arr.dtype).min if arr.dtype.kind == "i" else np.iinfo(arr.dtype).max)
         return arr
 
+    def empty_like(self, a, dtype=None, *args, **k):
+        arr = np.empty_like(a, dtype, *args, **k)
+        ctx = _CTX
+        if ctx is None or ctx.poison:
+            if arr.dtype.kind == "f":
+                arr.fill(np.nan)
+            elif arr.dtype.kind == "c":
+                arr.fill(complex(np.nan, np.nan))
+        return arr
+
     def __getattr__(self, name):
         return getattr(np, name)
+
+
+def poison_library_namespaces():
+    """Uninitialised memory is poison: ``np.empty`` / ``np.empty_like`` called from speckit's Python-level code
+    (analysis, core's NumPy kernels) return NaN-filled arrays.  Correct code overwrites every element it reads."""
+    import speckit.analysis as A
+
+    # only modules without Numba-jitted functions: Numba resolves the global ``np`` of a jitted function's module
+    # when it compiles a new signature, and must find the real numpy there (so speckit.core is left alone)
+    proxy = _PoisonNumpy()
+    if getattr(A, "np", None) is np:
+        A.np = proxy
+    return proxy
 
 
 # --------------------------------------------------------------------------
